@@ -423,8 +423,8 @@ fn stateful_pair(tp: &crate::c06::Templates, te: &AirbornePosition, to: &Airborn
     let (y1, x1) = code(first_odd);
     let (y2, x2) = code(second_odd);
     let mut msgs = vec![
-        TimedMessage { timestamp: base, frame: vec![], message: Some(make_msg(&tp, false, first_odd, y1, x1)), metadata: vec![], decode_time: None },
-        TimedMessage { timestamp: base + gap, frame: vec![], message: Some(make_msg(&tp, false, second_odd, y2, x2)), metadata: vec![], decode_time: None },
+        TimedMessage { timestamp: base, frame: vec![], message: Some(make_msg(&tp, false, first_odd, y1, x1)), metadata: vec![], decode_time: None, ..Default::default() },
+        TimedMessage { timestamp: base + gap, frame: vec![], message: Some(make_msg(&tp, false, second_odd, y2, x2)), metadata: vec![], decode_time: None, ..Default::default() },
     ];
     let wit = json!({"kind": "decode_positions", "lat": lat, "lon": lon, "first_odd": first_odd, "second_odd": second_odd, "base": base, "gap": gap, "reference": ri});
     set_case(4 | (1 << 8), lat.to_bits(), lon.to_bits(), base.to_bits());
